@@ -68,7 +68,7 @@ CHECKS = {
         "thorough": cfgs(["dflt", "cmp", "p2", "rdx", "rdxfmt", "cmprdxfmt"]),
         "rule": "string families S (every string over {+,-,0,1,max digit in both cases,lowest non-digit,_,0xFF} to depth L), NUM (numerals of INT "
                 "values and of MAX+1, MAX+r, (MAX+1)*r, MAX*r+r-1 in 30 variants: case, leading zeros, sign, trailing junk, embedded invalid bytes), "
-                "FILL (repeated-digit numerals of every length up to digits(MAX)+3), PAT (32..128-bit types: every adjacent digit pair at every position of all-ones numerals of every length; ascending/descending digit patterns of every length up to digits(MAX)+3), RANGE (8/16-bit types: every value in [-70000, 70000]); "
+                "FILL (repeated-digit numerals of every length up to digits(MAX)+3), BYTE (every byte value 0..255 before, between and after digits, in 7 shapes incl. inside 4- and 8-byte blocks, every radix), PAT (32..128-bit types: every adjacent digit pair at every position of all-ones numerals of every length; ascending/descending digit patterns of every length up to digits(MAX)+3), RANGE (8/16-bit types: every value in [-70000, 70000]); "
                 "x 12 types x radices x {parse, parse_partial} x no_multi_digit on/off; value, consumed count, error kind and index compared "
                 "with the literal left-to-right reference scan; non-trivial = inputs that are valid numerals or overflow",
         "bounds": {
